@@ -74,7 +74,7 @@ def judge(d):
 def main(tier):
     rep = common.Reporter(PID, tier, LEVEL)
     binary = _build()
-    res = enumlib.run_enumerator(binary, tier, common.NCPU, timeout=3000)
+    res = enumlib.run_enumerator(binary, "thorough", common.NCPU, timeout=3000)  # 24x32 lattice, two parameter points: seconds
     rows, skips = [], []
     for p, rc, out, err in res:
         if rc != 0:
@@ -108,7 +108,7 @@ def main(tier):
                 "returns is evaluated on a generic lattice of %s points (radii incl. 5e-3 Rmax and (1-1e-3) Rmax, angles never a "
                 "multiple of pi/k): Jacobian vs 6th-order differences of Fx,Fy (Culham included), rhs_f vs nested 6th-order "
                 "differences of the exact solution with the metric of the mapping, boundary data vs exact solution, gyro relation; "
-                "distinct = distinct source-term classes" % ("24x32" if tier == "thorough" else "12x16"),
+                "distinct = distinct source-term classes" % "24x32",
         "samples": [{k: rows[0][k] for k in ("src", "exact", "coef", "geo", "rhs", "jac")}] if rows else ["none"],
         "exhaustive": True,
     }
